@@ -4,7 +4,7 @@
     [Database::get_table] (the four-step name lookup), [Database::create_index] (table + column
     resolution, index entries built from the rows present AT THAT MOMENT), and [Table::insert]
     = [RowNormalizer::normalize_and_validate] + push (table/normalization.rs) -- which does NOT
-    maintain the database-level user indexes.
+    maintain the database-level user indexes; [read_data] therefore rebuilds them at its end.
 
     The database state is a plain record of lists in insertion order ([HashMap] iteration order is not
     modelled; the correspondence run feeds the model the order the implementation used).
@@ -70,17 +70,16 @@ Definition of_parse {A} (k : Z) (r : presult A) (f : A -> bvalue) : nres :=
 
 Definition u16_max : Z := 65535.
 
-(** [normalize_char_value]: pad (by CHARACTERS, through [format!("{:width$}")]) when shorter in
-    BYTES, cut at byte [length] when longer in bytes *)
+(** [normalize_char_value]: CHAR(n) counts CHARACTERS: pad with spaces through
+    [format!("{:width$}")] when the value has fewer than [n] characters (the format machinery panics
+    for a width above u16::MAX), keep the first [n] characters when it has more.  The event records the
+    requested width. *)
 Definition normalize_char (s : bytes) (n : Z) : trace * nres :=
-  if blen s <? n then
+  let c := char_count s in
+  if c <? n then
     if u16_max <? n then ([], NPanic PFmtWidth)
-    else ([Alloc n], NOk (BV (VCharacter (s ++ repeat 32 (Z.to_nat (n - char_count s))))))
-  else if n <? blen s then
-    match slice_to s n with
-    | Some p => ([], NOk (BV (VCharacter p)))
-    | None => ([], NPanic PSlice)
-    end
+    else ([Alloc n], NOk (BV (VCharacter (s ++ repeat 32 (Z.to_nat (n - c))))))
+  else if n <? c then ([], NOk (BV (VCharacter (take_chars (Z.to_nat n) s))))
   else ([], NOk (BV (VCharacter s))).
 
 Definition truncate_varchar (s : bytes) (n : Z) : nres :=
@@ -402,14 +401,11 @@ Fixpoint replace_nth {A} (n : nat) (x : A) (l : list A) : list A :=
   end.
 
 (** the rows of one table: [row_count] times ([column_count] values, then [Table::insert]).
-    With zero columns an iteration consumes no input: the loop runs [row_count] (a u64 from the file)
-    times whatever the file size *)
+    A table without columns must not claim rows (the loop would consume no input): rejected. *)
 Definition read_rows (E : env) (t : table) (row_count : Z) : dec table :=
   let ncols := Z.of_nat (length (t_cols t)) in
   if ncols =? 0 then
-    if row_count <=? 0 then ret t
-    else if spin_limit E <? row_count then stop Hang
-    else ret (mkTable (t_name t) (t_cols t) (t_rows t) (t_extra t + row_count))
+    if row_count <=? 0 then ret t else fail (ECatalog 7)
   else
     iter row_count (fun t' => vals <- loop ncols (read_value E) ;; table_insert E t' vals) t.
 
@@ -426,9 +422,44 @@ Definition read_table_data (E : env) (d : db) : dec db :=
   | _ => stop Unmodelled
   end.
 
-(** [read_data]: as many table blocks as the catalog has tables; trailing bytes are ignored *)
+(** rebuilding one user index from the rows now present: [drop_index] then [create_index] with the
+    recorded definition (same table and column resolution as when the catalog was read) *)
+Definition rebuild_index (d : db) (i : index) : outcome index :=
+  match index_table_idx d (i_table i) with
+  | None => Err (ECatalog 3)
+  | Some ti =>
+      match nth_error (d_tables d) ti with
+      | None => Err (ECatalog 3)
+      | Some t =>
+          match columns_idx (t_cols t) (i_cols i) with
+          | POk idxs => Ok (mkIndex (i_name i) (i_table i) (i_unique i) (i_cols i) (entries_from (t_rows t) idxs 0)) []
+          | PErr => Err (ECatalog 5)
+          | _ => Unmodelled
+          end
+      end
+  end.
+
+Fixpoint rebuild_all (d : db) (l : list index) : outcome (list index) :=
+  match l with
+  | [] => Ok [] []
+  | i :: r =>
+      match rebuild_index d i with
+      | Ok i' _ => match rebuild_all d r with Ok r' _ => Ok (i' :: r') [] | o => o end
+      | o => cast_out o
+      end
+  end.
+
+Definition rebuild_indexes (d : db) : outcome db :=
+  match rebuild_all d (d_indexes d) with
+  | Ok l _ => Ok (mkDb (d_schemas d) (d_roles d) (d_tables d) l (d_triggers d)) []
+  | o => cast_out o
+  end.
+
+(** [read_data]: as many table blocks as the catalog has tables, then every user index is rebuilt
+    from the loaded rows; trailing bytes are ignored *)
 Definition read_data (E : env) (d : db) : dec db :=
-  iter (Z.of_nat (length (d_tables d))) (read_table_data E) d.
+  d' <- iter (Z.of_nat (length (d_tables d))) (read_table_data E) d ;;
+  lift (rebuild_indexes d').
 
 (** * whole file (mod.rs) *)
 Definition save_binary (d : db) : bytes := write_header ++ write_catalog d ++ write_data d.
